@@ -25,6 +25,7 @@ ASSUMPTIONS = [
     "tuned threshold: with m training scores sorted s(0)<=...<=s(m-1) the threshold must lie in [s(floor((1-level)(m-1))), s(min(m-1, ceil((1-level)m)))] and at most ceil(level*m) scores may exceed it (granularity of the sample; the interpolation rule is not prescribed)",
     "CAPA's point penalty has no closed form in the statement: only proportionality to its scale is checked",
     "k = parameters per segment = collective_saving.get_param_size(p)",
+    "the documented thresholds / penalties of PELT, seeded and circular binary segmentation and the moving window do not depend on the scorer: they are also fitted with Gaussian costs (more parameters per variable)",
 ]
 
 NS = list(range(2, 65)) + [100, 1000, 100000]
@@ -49,10 +50,37 @@ def check_fitted(acc, det, n, p, scale, extra):
     X = pd.DataFrame(((np.arange(n).reshape(-1, 1) * 7 + 3 * np.arange(p)) % 5).astype(float) + (np.arange(n).reshape(-1, 1) >= n // 2) * 6.0)
     logn = math.log(n)
     try:
+        from skchange.costs import GaussianCovCost
+
         if det == "PELT":
-            d = cd.PELT(penalty_scale=scale, min_segment_length=1).fit(X)
+            # the documented penalty does not depend on the cost: default L2, and costs with more parameters per variable
+            mk = {None: lambda: None, "GV": lambda: GaussianVarCost(), "Cov": lambda: GaussianCovCost()}[extra]
+            msl = 1 if extra is None else (2 if extra == "GV" else p + 1)
+            if n < 2 * msl:
+                return
+            d = cd.PELT(mk(), penalty_scale=scale, min_segment_length=msl).fit(X)
             got, want = d.penalty_, scale * 2 * p * logn
-            d2 = cd.PELT(penalty_scale=2 * scale, min_segment_length=1).fit(X).penalty_
+            d2 = cd.PELT(mk(), penalty_scale=2 * scale, min_segment_length=msl).fit(X).penalty_
+        elif det == "SBS-GV":
+            if n < 4:
+                return
+            d = cd.SeededBinarySegmentation(GaussianVarCost(), threshold_scale=scale, min_segment_length=2, max_interval_length=max(4, extra)).fit(X)
+            got, want = d.threshold_, scale * 2 * p * math.sqrt(logn)
+            d2 = cd.SeededBinarySegmentation(GaussianVarCost(), threshold_scale=2 * scale, min_segment_length=2, max_interval_length=max(4, extra)).fit(X).threshold_
+        elif det == "MW-GV":
+            b = max(2, extra)
+            if n < 2 * b:
+                return
+            d = cd.MovingWindow(GaussianVarCost(), bandwidth=b, threshold_scale=scale, level=0.05).fit(X)
+            got, want = d.threshold_, scale * cd.MovingWindow.get_default_threshold(n, p, b, 0.05)
+            d2 = cd.MovingWindow(GaussianVarCost(), bandwidth=b, threshold_scale=2 * scale, level=0.05).fit(X).threshold_
+        elif det == "CBS-GV":
+            if n < 4:
+                return
+            M = max(4, extra)
+            d = ad.CircularBinarySegmentation(GaussianVarCost(), threshold_scale=scale, min_segment_length=2, max_interval_length=M).fit(X)
+            got, want = d.threshold_, scale * ad.CircularBinarySegmentation.get_default_threshold(n, p, M)
+            d2 = ad.CircularBinarySegmentation(GaussianVarCost(), threshold_scale=2 * scale, min_segment_length=2, max_interval_length=M).fit(X).threshold_
         elif det == "SBS":
             d = cd.SeededBinarySegmentation(threshold_scale=scale, min_segment_length=1, max_interval_length=max(2, extra)).fit(X)
             got, want = d.threshold_, scale * 2 * p * math.sqrt(logn)
@@ -228,6 +256,13 @@ def fitted_cases(tier):
                 continue
             for scale in SCALES:
                 yield ("PELT", n, p, scale, None)
+                if n <= 40 and scale in (0.0, 1.0, 3.7):
+                    yield ("PELT", n, p, scale, "GV")
+                    if p <= 3:
+                        yield ("PELT", n, p, scale, "Cov")
+                    yield ("SBS-GV", n, p, scale, 7)
+                    yield ("MW-GV", n, p, scale, 2)
+                    yield ("CBS-GV", n, p, scale, 7)
                 for M in (2, 7, 200):
                     yield ("SBS", n, p, scale, M)
                     yield ("CBS", n, p, scale, M)
